@@ -9,11 +9,16 @@ import cxxscan
 from translate import TranslateError, HEADER, read
 
 FILE = "include/iora/core/thread_pool.hpp"
-SHARED = ["_mutex", "_configMutex", "_condition", "_tasks", "_threads", "_shutdown", "_accepting", "_pendingSpawns",
+SHARED = ["_mutex", "_configMutex", "_condition", "_tasks", "_threads", "_shutdown", "_shutdownComplete", "_accepting", "_pendingSpawns",
           "_activeThreads", "_busyThreads", "_threadsExited", "_threadsCreated", "_waitingThreads"]
 
 TOK = re.compile(r"""
    (?P<guard>std::(?:unique_lock|lock_guard|scoped_lock)\s*<[^>]*>\s*(?P<gname>\w+)\s*[\({]\s*(?:\w+\s*->\s*)?(?P<gm>_\w+)\s*[\)}])
+ | (?P<gunlock>\b(?P<uname>lock)\s*\.\s*unlock\s*\(\s*\))
+ | (?P<cmpl>\b_shutdownComplete\s*\.\s*(?P<cmplop>load|store)\s*\(\s*(?P<cmplv>\w*))
+ | (?P<modecond>\bmode\s*(?:==|!=)\s*ShutdownMode::\w+)
+ | (?P<loop>\bfor\s*\(\s*std::size_t\s+i\s*=\s*0\s*;\s*(?P<loopc>[^;]+);)
+ | (?P<wcount>\bworkerCount\s*=\s*(?P<wcexpr>_workerScaling[^;]+);)
  | (?P<wait>\b_condition\s*\.\s*(?P<wk>wait|wait_for|wait_until)\s*\(\s*(?P<wl>\w+)\s*,\s*(?P<wt>[\w:.()]+)\s*,)
  | (?P<notify>\b_condition\s*\.\s*notify_(?P<nk>one|all)\s*\(\s*\))
  | (?P<racc>\b_accepting\s*\.\s*load\s*\()
@@ -83,6 +88,12 @@ def skeleton(body, where, skip_lambda=False):
         elif m.group("open"):
             depth += 1
         elif m.group("close"):
+            # a block that released a guard explicitly and ends with return/throw: the fall-through path still holds it
+            for gd in guards:
+                if len(gd) > 4 and gd[4] == ("explicit", depth):
+                    if ev and ev[-1][0] in ("return", "throw"):
+                        gd[3] = True
+                    del gd[4:]
             for gd in guards:
                 if gd[2] == depth and gd[3]:
                     ev.append(("unlock", gd[1], ",".join(sorted({h[1] for h in guards if h[3]}))))
@@ -93,6 +104,26 @@ def skeleton(body, where, skip_lambda=False):
             guards.append([m.group("gname"), m.group("gm"), depth, True])
             ev.append(("lock", m.group("gm"), held))
             covered.append(m.start("gm"))
+        elif m.group("gunlock"):
+            hit = [gd for gd in guards if gd[0] == m.group("uname") and gd[3]]
+            if not hit:
+                raise TranslateError("%s: %s.unlock() on an unknown / released guard" % (where, m.group("uname")))
+            for gd in hit:
+                ev.append(("unlock", gd[1], held))
+                gd[3] = False
+                gd.append(("explicit", depth))
+        elif m.group("cmpl"):
+            if m.group("cmplop") == "load":
+                ev.append(("read", "_shutdownComplete", held))
+            else:
+                ev.append(("write:" + m.group("cmplv"), "_shutdownComplete", held))
+            covered.append(m.start())
+        elif m.group("modecond"):
+            ev.append(("cond:" + re.sub(r"\s+", "", m.group(0)), "", held))
+        elif m.group("loop"):
+            ev.append(("loop:" + re.sub(r"\s+", "", m.group("loopc")), "", held))
+        elif m.group("wcount"):
+            ev.append(("workerCount:" + re.sub(r"\s+", "", m.group("wcexpr")), "", held))
         elif m.group("wait"):
             hit = [gd for gd in guards if gd[0] == m.group("wl")]
             if not hit:
@@ -224,6 +255,21 @@ def gen(repo):
     rows.append(("phase1", skeleton(fb(src, "shutdownPhase1_SignalShutdown"), "shutdownPhase1_SignalShutdown")))
     rows.append(("phase4", skeleton(fb(src, "shutdownPhase4_JoinThreads"), "shutdownPhase4_JoinThreads")))
     rows.append(("getPendingTaskCount", skeleton(fb(src, "getPendingTaskCount"), "getPendingTaskCount")))
+    rows.append(("start", skeleton(fb(src, "start"), "start")))
+    rows.append(("reset", skeleton(fb(src, "reset"), "reset")))
+    mc = re.search(r"ShutdownMode\s+shutdownMode\s*=\s*ShutdownMode::(\w+)\s*\)\s*:\s*_initialSize", src)
+    if not mc:
+        raise TranslateError("ThreadPool constructor: default shutdownMode not found")
+    ctor_open = src.index("{", mc.end())
+    init_list = re.sub(r"\s+", "", src[mc.end() - len("_initialSize"):ctor_open])
+    mmax = re.search(r"_maxSize\(([^()]*(?:\([^()]*\))?[^()]*)\)", init_list)
+    if not mmax:
+        raise TranslateError("ThreadPool constructor: initialiser of _maxSize not found")
+    rows.append(("ctor", skeleton(src[ctor_open + 1:cxxscan.match_brace(src, ctor_open)], "ThreadPool()")))
+    if re.search(r"\beffectiveMaxSize\s*\(\s*std::size_t", src):
+        eff_body = re.sub(r"\s+", "", fb(src, "effectiveMaxSize", signature_contains="std::size_t"))
+    else:
+        eff_body = ""
     # wait predicate of the worker
     m = re.search(r"_condition\s*\.\s*wait_for\s*\(\s*lock\s*,\s*_idleTimeout\s*,\s*\[\s*this\s*\]\s*\(\s*\)\s*\{\s*return\s+([^;]+);", lam)
     if not m:
@@ -270,6 +316,9 @@ def gen(repo):
     t += 'def workerWaitPred : String := "%s"\n' % pred
     t += "/-- the tree has a separate `spawnWorkerLocked()` (creation + registration under the caller's lock) -/\n"
     t += "def hasSpawnWorkerLocked : Bool := %s\n" % ("true" if has_locked else "false")
+    t += "/-- constructor: default shutdown mode, initialiser of `_maxSize`, body of `effectiveMaxSize` (blanks removed) -/\n"
+    t += 'def ctorDefaultMode : String := "%s"\ndef maxSizeInit : String := "%s"\ndef effectiveMaxSizeBody : String := "%s"\n' % (
+        mc.group(1), mmax.group(1), eff_body)
     t += "/-- order of the destructor's phases -/\n"
     t += "def dtorPhases : List Nat := [%s]\n" % ", ".join(phases)
     t += "/-- constructor defaults: maxQueueSize, idleTimeout (s); `_workerScaling` -/\n"
